@@ -176,9 +176,15 @@ func runC03(r *core.Run) (bool, string) {
 		for k := range ex.Outcomes {
 			kind := strings.SplitN(k, ":", 2)[0]
 			switch kind {
-			case "budget", "unsupported", "depth", "internal", "diverge":
+			case "unsupported", "depth", "internal", "diverge":
 				incon = true
 			}
+		}
+		// a generated program is a handful of bounded critical sections: an interleaving that is
+		// still running after the step budget spins forever (e.g. holding a lock nobody can get)
+		if n := ex.Outcomes["budget:"]; n > 0 && info.Det {
+			res.Verdict = "model-diverges"
+			r.Violate("c03-"+info.Tmpl+"-model-diverges", fmt.Sprintf("%d interleavings of the emitted program never finish (step budget exhausted) although Go always returns %v", n, keysOf(res.GoOutcomes)), detail)
 		}
 		// clause 1: every Go outcome is a model outcome
 		missing := []string{}
